@@ -16,6 +16,7 @@ def run(ctx):
               {"steps": 4 if q else 5, "universe": "Two", "crash": True, "rich": True, "invariants": ["C08_Forward", "C08_FinalizeNeedsQuorum", "C08_FinStepHasElapsed"],
                "properties": ["C08_StepForward", "C08_PosForward"]}]
     plans = [{"cover": True, "universe": "Small", "steps": 5 if q else 6},
+             {"cover": True, "universe": "Two", "steps": 5 if q else 6, "visit": ["PrevoteDelay", "PrecommitDelay"], "workers": 8, "cap": 8000 if q else 60000},
              {"cover": True, "universe": "Small", "steps": 4 if q else 5, "rich": True, "crash": True, "cap": 3000 if q else 20000},
              {"universe": "", "rich": True, "sim": 8 if q else 60, "steps": 9 if q else 12, "cap": 300 if q else 5000, "seeds": 1 if q else 3},
              {"universe": "Two", "rich": False, "sim": 10 if q else 80, "steps": 10 if q else 12, "cap": 250 if q else 4000, "seeds": 1 if q else 3},
